@@ -197,6 +197,8 @@ class MetricLineReceiver(MetricReceiver, LineOnlyReceiver):
       metric, value, timestamp = line.strip().split()
       datapoint = (float(timestamp), float(value))
     except ValueError:
+      if isinstance(line, bytes):  # it could not be decoded
+        line = line.decode('utf-8', 'replace')
       if len(line) > 400:
         line = line[:400] + '...'
       log.listener('invalid line received from client %s, ignoring [%s]' %
@@ -233,6 +235,8 @@ class MetricDatagramReceiver(MetricReceiver, DatagramProtocol):
 
         self.metricReceived(metric, datapoint)
       except ValueError:
+        if isinstance(line, bytes):  # it could not be decoded
+          line = line.decode('utf-8', 'replace')
         if len(line) > 400:
           line = line[:400] + '...'
         log.listener('invalid line received from %s, ignoring [%s]' %
